@@ -17,7 +17,7 @@ RULE = ('one evaluation = the key of one valid call under one keymap configurati
 SCOPE = {
     'quick': 'key path: callables with <=2 positional-or-keyword parameters, optional *args, <=1 keyword-only, optional **kw (function, bound '
              'method, callable instance); calls 0..3 positionals x ordered selections of <=2 keywords; 48 keymap configurations (no builtin '
-             'hash); ignore in {(), every pair of parameter names, ("**",), ("*","**")}; 3 hash seeds.  Sessions: writer and reader processes '
+             'hash), plus arguments that are instances (and the class itself) of a class defined in the session\'s __main__ under 9 serialising keymaps with serializer options (dill/pickle protocol, recurse, typed, composed maps); ignore in {(), every pair of parameter names, ("**",), ("*","**")}; 3 hash seeds.  Sessions: writer and reader processes '
              'with different hash seeds on dir/file/sqlite archives x 7 keymaps, 9 calls',
     'thorough': 'as quick with <=3 positional-or-keyword and <=2 keyword-only parameters, 0..4 positionals and 8 hash seeds',
 }
@@ -59,10 +59,12 @@ def units(tier, seed):
     return us
 
 
-def _digests(mode, lo, hi, seed, detail=None):
+def _digests(mode, lo, hi, seed, detail=None, main_detail=None):
     cmd = [_py(), '-m', 'bounded.keydigest', mode, str(lo), str(hi)]
     if detail:
         cmd += ['--detail'] + [str(x) for x in detail]
+    if main_detail is not None:
+        cmd += ['--main-detail', str(main_detail)]
     p = subprocess.run(cmd, cwd=VERIF, env=_env(seed), capture_output=True, text=True, timeout=3000)
     if p.returncode != 0:
         raise RuntimeError('keydigest failed: ' + p.stderr[-500:])
@@ -86,6 +88,12 @@ def run_unit(unit):
         cfgs = K.configs(include_builtin_hash=False)
         seenk = set()
         for g, s in bad.items():
+            if g.startswith('main/'):
+                _, j, name = g.split('/', 2)
+                out['violations'].append({'clause': 'session_stable', 'klass': 'key of a __main__-class argument depends on the session: %s' % name,
+                                          'message': 'group %s: keys differ between the session with PYTHONHASHSEED=%d and the one with %d' % (g, seeds[0], s),
+                                          'witness': {'kind': 'keys-main', 'j': int(j), 'seeds': [seeds[0], s]}})
+                continue
             idx, ci, j, si = [int(x) for x in g.split('/')]
             klass = 'key depends on the hash seed: %s %s%s%s' % (cfgs[j][0], 'flat' if cfgs[j][1] else 'non-flat', ' typed' if cfgs[j][2] else '',
                                                                  '' if si == 0 else ' with ignore')
@@ -131,6 +139,15 @@ def replay(w):
     if w['kind'] == 'session':
         still, text, info = _session(w['archive'], w['keymap'], w['seeds'][0], w['seeds'][1])
         return still, text
+    if w['kind'] == 'keys-main':
+        a = _digests('quick', 0, 1, w['seeds'][0], main_detail=w['j'])
+        b = _digests('quick', 0, 1, w['seeds'][1], main_detail=w['j'])
+        ra, rb = list(a.values())[0], list(b.values())[0]
+        for x, y in zip(ra, rb):
+            if x != y:
+                return True, '%s: call %s has key %s in the session with PYTHONHASHSEED=%d but %s in the one with %d (the sessions differ in their history: one saw a key build fail)' % (
+                    list(a)[0], x[0], x[1][:120], w['seeds'][0], y[1][:120], w['seeds'][1])
+        return False, 'keys agree in both sessions'
     idx = w['group'][0]
     a = _digests(w['mode'], idx, idx + 1, w['seeds'][0], detail=w['group'])
     b = _digests(w['mode'], idx, idx + 1, w['seeds'][1], detail=w['group'])
